@@ -30,7 +30,7 @@ def dataset_cfg(rng, tier, prop):
         prop = "C14"   # same histories as C14: mutations interleaved with Dataset-wide operations
     cfg = {"world": "dataset", "dim_names": dims, "dim_kind": kinds, "max_rank": min(3, ndims), "max_len": rng.randint(1, 4),
            "min_len": rng.choice([0, 1, 1, 2]), "orders": sorted(rng.sample(V.ORDERS, rng.randint(1, 3))),
-           "label_kinds": V.LABEL_KINDS, "dtypes": rng.choice([["f8"], ["f8", "i8"], ["f8", "i8", "b1"], ["f8", "i8", "O"]]),
+           "label_kinds": V.LABEL_KINDS, "dtypes": rng.choice([["f8"], ["f8", "i8"], ["f8", "i8", "b1"], ["f8", "i8", "O"], ["f8", "f4", "i4"]]),
            "nan_rate": rng.choice([0.0, 0.2]), "meta_density": rng.choice([0.0, 0.6, 1.0]), "mutable_meta": False,
            "mode": mode, "start": rng.choice(["empty", "ctor", "ctor", "ctor_diff"]),
            "op_rate": {"C13": 0.0, "C14": rng.choice([0.3, 0.5, 0.7])}[prop],
@@ -128,6 +128,8 @@ class RefDataset(object):
                 if _labels_same(py_labels(real), self.dims[d]["labels"]):
                     labs = np.array(real, copy=True)
             ax = Axis(labs, d)
+            if like is not None and d in like.dims and getattr(like.axes[d], "tol", None) is not None:
+                ax.tol = like.axes[d].tol        # a look-up tolerance set on the dataset's axis belongs to the variable's axis too
             ax.attrs.update(_copy.deepcopy(self.dims[d]["attrs"]))
             axes.append(ax)
         a = DimArray(np.array(v["values"], copy=True), axes)
@@ -925,10 +927,10 @@ class DatasetWorld(object):
         labels = [py_labels(ax.values) for ax in v.axes]
         if any(any(isinstance(x, (tuple, list)) or x is None for x in l) for l in labels):
             raise Skip("labels")
-        kind = v.values.dtype.kind
-        if kind not in "fib":
+        dt = {"float64": "f8", "float32": "f4", "int64": "i8", "int32": "i4", "bool": "b1"}.get(str(v.values.dtype))
+        if dt is None:
             raise Skip("dtype")
-        spec = {"dims": list(v.dims), "labels": labels, "dtype": {"f": "f8", "i": "i8", "b": "b1"}[kind], "values": v.values.tolist(),
+        spec = {"dims": list(v.dims), "labels": labels, "dtype": dt, "values": v.values.tolist(),
                 "attrs": _copy.deepcopy(dict(v.attrs)), "axattrs": [_copy.deepcopy(dict(ax.attrs)) for ax in v.axes]}
         accepted = self.model.accepts(spec)
         before = self.identity_state(self.ds)
